@@ -43,6 +43,7 @@ type event struct {
 	value int // store: saved position; diff: to
 	from  int // diff
 	final bool
+	tags  []int // diff: the log entries the response carried
 }
 
 func (e event) String() string {
@@ -63,6 +64,7 @@ type world struct {
 	mu    sync.Mutex
 	logs  map[string][]entry
 	head  map[string]int // published position per sequence
+	pub   map[string]int // number of published entries per sequence
 	base  map[string]int
 	byTag map[int]entry
 	trace []event
@@ -109,6 +111,11 @@ func (e entry) update() tg.UpdateClass {
 		return &tg.UpdateDeleteChannelMessages{ChannelID: e.ch, Messages: []int{e.tag}, Pts: e.end, PtsCount: cnt}
 	case "cedit":
 		return &tg.UpdateEditChannelMessage{Message: &tg.Message{ID: e.tag, PeerID: &tg.PeerChannel{ChannelID: e.ch}}, Pts: e.end, PtsCount: cnt}
+	case "cread":
+		// occupies no position (pts_count is always 0): carries the channel pts at the time
+		return &tg.UpdateReadChannelInbox{ChannelID: e.ch, MaxID: e.tag, Pts: e.end}
+	case "web":
+		return &tg.UpdateWebPage{Webpage: &tg.WebPageEmpty{ID: int64(e.tag)}, Pts: e.end, PtsCount: 0}
 	}
 	panic("kind " + e.kind)
 }
@@ -142,6 +149,12 @@ func tagOf(u tg.UpdateClass) (int, bool) {
 		return u.Messages[0], true
 	case *tg.UpdateEditChannelMessage:
 		return msgID(u.Message)
+	case *tg.UpdateReadChannelInbox:
+		return u.MaxID, true
+	case *tg.UpdateWebPage:
+		if w, ok := u.Webpage.(*tg.WebPageEmpty); ok {
+			return int(w.ID), true
+		}
 	}
 	return 0, false
 }
@@ -193,9 +206,22 @@ func (a api) UpdatesGetState(ctx context.Context) (*tg.UpdatesState, error) {
 
 func (w *world) rangeOf(seq string, from, to int) []entry {
 	var out []entry
-	for _, e := range w.logs[seq] {
+	for i, e := range w.logs[seq] {
+		if w.pub != nil && i >= w.pub[seq] {
+			break
+		}
 		if e.end > from && e.end <= to {
 			out = append(out, e)
+		}
+	}
+	return out
+}
+
+func tagsOf(ents []entry, seq string) []int {
+	var out []int
+	for _, e := range ents {
+		if e.seq == seq {
+			out = append(out, e.tag)
 		}
 	}
 	return out
@@ -251,8 +277,8 @@ func (a api) UpdatesGetDifference(ctx context.Context, req *tg.UpdatesGetDiffere
 		}
 	}
 	state := tg.UpdatesState{Pts: toP, Qts: toQ, Date: w.date, Seq: w.seq}
-	w.record(event{kind: "diff", seq: "pts", from: req.Pts, value: toP, final: final})
-	w.record(event{kind: "diff", seq: "qts", from: req.Qts, value: toQ, final: final})
+	w.record(event{kind: "diff", seq: "pts", from: req.Pts, value: toP, final: final, tags: tagsOf(ents, "pts")})
+	w.record(event{kind: "diff", seq: "qts", from: req.Qts, value: toQ, final: final, tags: tagsOf(ents, "qts")})
 	if final {
 		return &tg.UpdatesDifference{NewMessages: msgs, NewEncryptedMessages: enc, OtherUpdates: other, State: state}, nil
 	}
@@ -293,7 +319,7 @@ func (a api) UpdatesGetChannelDifference(ctx context.Context, req *tg.UpdatesGet
 			other = append(other, e.update())
 		}
 	}
-	w.record(event{kind: "diff", seq: seq, from: req.Pts, value: to, final: final})
+	w.record(event{kind: "diff", seq: seq, from: req.Pts, value: to, final: final, tags: tagsOf(ents, seq)})
 	return &tg.UpdatesChannelDifference{Final: final, Pts: to, NewMessages: msgs, OtherUpdates: other}, nil
 }
 
@@ -470,6 +496,9 @@ func (w *world) checkOrder() string {
 				}
 			}
 			for _, p := range w.logs[e.seq] {
+				if p.tag == e.tag || p.end == p.start {
+					continue // itself, or an entry that occupies no position
+				}
 				if p.end <= e.start && !delivered[p.tag] && p.end > covered[e.seq] {
 					return fmt.Sprintf("trace[%d]: %v delivered while earlier %v was neither delivered nor covered by a difference (covered=%d)", i, e, p, covered[e.seq])
 				}
@@ -483,6 +512,22 @@ func (w *world) checkOrder() string {
 // reportedAt replays the trace up to index upTo (-1 = all) and returns the set
 // of delivered tags and, per sequence, the ranges reported through the too-long
 // callback (a too-long difference answer followed by the callback).
+// inDiffAt returns the tags carried by difference responses among trace[0:upTo).
+func (w *world) inDiffAt(upTo int) map[int]bool {
+	out := map[int]bool{}
+	for i, ev := range w.trace {
+		if upTo >= 0 && i >= upTo {
+			break
+		}
+		if ev.kind == "diff" {
+			for _, t := range ev.tags {
+				out[t] = true
+			}
+		}
+	}
+	return out
+}
+
 func (w *world) reportedAt(upTo int) (map[int]bool, map[string][][2]int) {
 	delivered := map[int]bool{}
 	tooLong := map[string][][2]int{}
@@ -510,10 +555,14 @@ func (w *world) reportedAt(upTo int) (map[int]bool, map[string][][2]int) {
 // ranges reported through the too-long callbacks.
 func (w *world) missing(upTo int) []entry {
 	delivered, tooLong := w.reportedAt(upTo)
-	return w.missingFrom(delivered, tooLong)
+	return w.missingFrom(delivered, tooLong, w.inDiffAt(upTo))
 }
 
-func (w *world) missingFrom(delivered map[int]bool, tooLong map[string][][2]int) []entry {
+// missingFrom: entries that occupy no position (pts_count 0) can only be
+// recovered when a difference response carries them (the server does not
+// return them to a client that is already at their pts), so they are required
+// only if some difference carried them.
+func (w *world) missingFrom(delivered map[int]bool, tooLong map[string][][2]int, inDiff map[int]bool) []entry {
 	var out []entry
 	seqs := make([]string, 0, len(w.logs))
 	for s := range w.logs {
@@ -524,6 +573,9 @@ func (w *world) missingFrom(delivered map[int]bool, tooLong map[string][][2]int)
 	next:
 		for _, e := range w.logs[s] {
 			if delivered[e.tag] {
+				continue
+			}
+			if e.end == e.start && !inDiff[e.tag] {
 				continue
 			}
 			for _, r := range tooLong[s] {
@@ -544,8 +596,13 @@ func (w *world) checkPersist() string {
 	delivered := map[int]bool{}
 	reported := map[string]int{} // positions <= this were reported too long by callback
 	pendingTL := map[string]int{}
+	inDiff := map[int]bool{}
 	for i, ev := range w.trace {
 		switch ev.kind {
+		case "diff":
+			for _, t := range ev.tags {
+				inDiff[t] = true
+			}
 		case "handler":
 			delivered[ev.tag] = true
 		case "diff-toolong":
@@ -556,6 +613,9 @@ func (w *world) checkPersist() string {
 			}
 		case "store":
 			for _, e := range w.logs[ev.seq] {
+				if e.end == e.start && !inDiff[e.tag] {
+					continue // occupies no position and no difference carried it: not recoverable by design
+				}
 				if e.end <= ev.value && !delivered[e.tag] && e.end > reported[ev.seq] {
 					return fmt.Sprintf("trace[%d]: saved %s=%d covers %v which has not been handed to the handler (nor reported too long)", i, ev.seq, ev.value, e)
 				}
